@@ -59,6 +59,8 @@ kani_unit("f62", "winter-math", "math/src/field/f62/mod.rs", "kani/math_f62.rs",
       "Ok/Some iff len == 8 and le(bytes) < M; representative < 2M"),
     H("f62_read_from_contract", ["C07", "C12", "C06"], ["f62::Deserializable::read_from"],
       "forall byte strings <= 9 bytes: Ok iff >= 8 bytes and le < M; representative < 2M; exactly 8 bytes consumed; never panics"),
+    H("f62_write_into_canonical_contract", ["C12", "C07"], ["f62::Serializable::write_into", "f62::StarkField::as_int"],
+      "forall representatives a < 2M: write_into appends 8 bytes whose little-endian value is below M (canonical; the library's decoder accepts it); both representatives of zero (0 and M) encode as 0", timeout=900),
     H("f62_inv_zero_contract", ["C07"], ["f62::inv"], "inv(0) == inv(M) == 0 (both representatives of zero; terminates)"),
     H("f62_ext2_frobenius_contract", ["C08", "C07"], ["f62::ExtensibleField<2>::frobenius"],
       "forall x0, x1: frobenius([x0, x1]) == [x0 + x1, -x1] with valid representatives; it is an involution; it fixes exactly the base field"),
@@ -115,7 +117,7 @@ PROPS["C07"] = dict(
 )
 
 verus_unit("f64v", "f64", ["C07", "C08"], ["f64::mont_red_cst (bit-precise, from its body)", "f64::mont_to_int (bit-precise, from its body)", "f64::Add::add", "f64::Sub::sub", "f64::BaseElement::new", "f64::Mul::mul", "traits::FieldElement::square", "f64::exp", "f64::exp_acc", "f64::inv", "f64::exp7", "f64::Div::div", "f64::Neg::neg", "f64::StarkField::as_int", "f64::From<u32>", "traits::StarkField::get_root_of_unity (64-bit instantiation: order exactly 2^n for every admissible n)"])
-verus_unit("f62v", "f62", ["C07", "C08"], ["f62::mul", "f62::add", "f62::sub", "f62::normalize", "f62::Add/Sub/Mul/Neg", "f62::new", "f62::as_int", "f62::double", "square", "f62::eq", "f62::exp", "traits::FieldElement::exp_vartime (u64 instantiation)", "traits::StarkField::get_root_of_unity (62-bit instantiation: order exactly 2^n for every admissible n)", "f62::inv (partial correctness: x * inv(x) == 1 for x != 0, inv(0) == 0; termination of the Euclid loops not proved)"])
+verus_unit("f62v", "f62", ["C07", "C08", "C12"], ["<f62::BaseElement as Serializable>::write_into (writes the canonical integer of the residue, whatever the internal representative)", "<f62::BaseElement as Deserializable>::read_from (accepts exactly encodings of integers below the modulus; decodes what write_into wrote)", "f62::mul", "f62::add", "f62::sub", "f62::normalize", "f62::Add/Sub/Mul/Neg", "f62::new", "f62::as_int", "f62::double", "square", "f62::eq", "f62::exp", "traits::FieldElement::exp_vartime (u64 instantiation)", "traits::StarkField::get_root_of_unity (62-bit instantiation: order exactly 2^n for every admissible n)", "f62::inv (partial correctness: x * inv(x) == 1 for x != 0, inv(0) == 0; termination of the Euclid loops not proved)"])
 
 for _u, _fns in (("f64x", ["f64::ExtensibleField<2>::{mul,square,mul_base,frobenius}", "f64::ExtensibleField<3>::{mul,square,mul_base,frobenius}"]),
                  ("f62x", ["f62::ExtensibleField<2>::{mul,mul_base,frobenius}", "f62::ExtensibleField<3>::{mul,mul_base,frobenius}"]),
